@@ -578,12 +578,16 @@ func (f *Flat) WalkPath(env *Env) (visited []int, exit int, err error) {
 			panic(r)
 		}
 	}()
-	seen := map[int]bool{}
+	seen := map[int]int{}
+	maxVisits := 1
+	if f.WalkMaxVisits > 0 {
+		maxVisits = f.WalkMaxVisits
+	}
 	for {
-		if seen[cur] {
+		if seen[cur] >= maxVisits {
 			return visited, -1, fmt.Errorf("loop on evaluated path at %s", f.P.pos(f.Nodes[cur].Ast))
 		}
-		seen[cur] = true
+		seen[cur]++
 		n := f.Nodes[cur]
 		if n.Ast != nil {
 			visited = append(visited, cur)
@@ -605,6 +609,20 @@ func (f *Flat) WalkPath(env *Env) (visited []int, exit int, err error) {
 					}()
 					env.execBlock([]ast.Stmt{&ast.DeclStmt{Decl: &ast.GenDecl{Tok: token.VAR, Specs: []ast.Spec{s}}}})
 				}()
+			case *ast.ExprStmt:
+				// a call for its effect: evaluated for the sake of the hooks (a yield, a recorded call); failures are ignored
+				if f.WalkExprStmts {
+					func() {
+						defer func() {
+							if r := recover(); r != nil {
+								if _, ok := r.(evalErr); !ok {
+									panic(r)
+								}
+							}
+						}()
+						env.eval(s.X)
+					}()
+				}
 			case *ast.AssignStmt, *ast.DeclStmt:
 				func() {
 					defer func() {
